@@ -472,7 +472,7 @@ impl Property for C18 {
     }
     fn cases(&self, tier: Tier) -> u64 {
         match tier {
-            Tier::Quick => 80_000,
+            Tier::Quick => 400_000,
             Tier::Thorough => 4_000_000,
         }
     }
